@@ -727,25 +727,25 @@ def main():
                 "alter_raw", "alter_frameoffset64", "alter_encoding", "alter_endianness", "move", "rename", "delete", "add_raw", "add_spec",
                 "add_const", "add_bit", "madd_const", "include", "uninclude", "alter_linterp", "alter_phase", "alter_entry", "alter_spec",
                 "hide", "reference", "alter_affixes", "rewrite_fragment", "alter_carray", "getdata64")
-    DATAFILE = {"raw": "raw", "r16": "r16", "rc": "rc", "sraw": "sub/sraw", "ac": "ac"}
+    DATAFILE = {"r16": "r16", "rc": "rc", "sraw": "sub/sraw", "ac": "ac"}      # (not raw: the interleaved valid read uses it)
     base_cases = [c for c in sweep if c["prio"] or len(c["args"]) <= 2]
     variants = []
     pv = [c for c in base_cases if c["op"] in PROT_OPS]
     for (p0, p1) in (("data", "data"), ("all", "format")):
-        for c in (pv if chk.thorough else rng.sample(pv, min(len(pv), 450))):
-            variants.append(dict(c, p0=p0, p1=p1, tag="[fragment 0 /PROTECT %s, fragment 1 /PROTECT %s] " % (p0, p1),
+        for c in (pv if chk.thorough else rng.sample(pv, min(len(pv), 220))):
+            variants.append(dict(c, p0=p0, p1=p1, vkey="/protected", tag="[fragment 0 /PROTECT %s, fragment 1 /PROTECT %s] " % (p0, p1),
                                  cmds=[x for x in c["cmds"] if x.startswith(("rep ", "rmfile "))]))
     fv = [c for c in base_cases if c["op"] in ("move", "rename", "delete", "alter_raw", "alter_entry", "putdata64", "getdata64", "seek64", "alter_spec")
           and c["args"] and str(c["args"][0]) in DATAFILE and str(c["args"][0]) != "ac"]
-    for c in (fv if chk.thorough else rng.sample(fv, min(len(fv), 350))):
+    for c in (fv if chk.thorough else rng.sample(fv, min(len(fv), 140))):
         f = DATAFILE[str(c["args"][0])]
         rep = [x for x in c["cmds"] if x.startswith("rep ")]
         fol = ["op move ac 1 1"] if c["op"] == "move" else ["op rename ac fnewac 1"] if c["op"] == "rename" else []
-        variants.append(dict(c, tag="[data file %s missing] " % f, cmds=["rmfile " + f] + rep + fol, follow=(fol[0][3:] if fol else None)))
-        variants.append(dict(c, tag="[a directory in place of the data file %s] " % f, cmds=["rmfile " + f, "mkdir " + f] + rep + fol, follow=(fol[0][3:] if fol else None)))
+        variants.append(dict(c, vkey="/file-missing", tag="[data file %s missing] " % f, cmds=["rmfile " + f] + rep + fol, follow=(fol[0][3:] if fol else None)))
+        variants.append(dict(c, vkey="/file-is-directory", tag="[a directory in place of the data file %s] " % f, cmds=["rmfile " + f, "mkdir " + f] + rep + fol, follow=(fol[0][3:] if fol else None)))
         if c["op"] in ("move", "rename", "alter_raw", "delete"):
-            variants.append(dict(c, tag="[after gd_alter_frameoffset(2^61) of the field's fragment] ",
-                                 cmds=["op alter_frameoffset64 2305843009213693952 %d 0" % (1 if f.startswith("sub/") else 0)] + rep + fol, follow=(fol[0][3:] if fol else None)))
+            variants.append(dict(c, vkey="/after-frameoffset", tag="[after gd_alter_frameoffset(2^61) of the field's fragment, flushed] ",
+                                 cmds=["op alter_frameoffset64 2305843009213693952 %d 0" % (1 if f.startswith("sub/") else 0), "op metaflush"] + rep, follow=None))
     for c in variants:
         c["variant"] = True
     sweep = sweep + variants
@@ -783,16 +783,16 @@ def main():
                 (what, c, "D->recurse_level is %d after %d calls (first error %d, last error %d); interleaved valid reads failing: %d" % (
                     rp["lend"], REPS, rp["err"], rp["errl"], rp["probe"])))
         elif rp["dirty"]:
-            viol.setdefault(internal_key(c["op"]) if rp["internal"] else partial_key(c, rp) or "C10/dirty-fail/%s/E%d" % (c["op"], rp["err"]), []).append(
+            viol.setdefault(internal_key(c["op"]) if rp["internal"] else partial_key(c, rp) or "C10/dirty-fail/%s/E%d%s" % (c["op"], rp["err"], c.get("vkey", "")), []).append(
                 (what, c, "%d failing calls (error %d) changed the observable snapshot" % (rp["dirty"], rp["err"])))
         fname = c.get("follow") if c.get("variant") else FOLLOW.get(c["op"])
         has_follow = any(x.startswith("op ") for x in c["cmds"][1:]) and fname
         fo = parse_op([l for l in r["out"][r["out"].index(next(x for x in r["out"] if x.startswith("REP "))):]]) if has_follow else None
         if fo is not None and rp["nf"] == REPS and fo[1] != 0 and not (rp["lmax"] or rp["dirty"]):
-            viol.setdefault("C10/future/%s/followup" % c["op"], []).append(
+            viol.setdefault("C10/future/%s/followup%s" % (c["op"], c.get("vkey", "")), []).append(
                 (what, c, "all %d calls failed (error %d); the valid follow-up call `%s` on the same handle then fails with error %d" % (REPS, rp["err"], fname, fo[1])))
         elif rp.get("fl"):
-            viol.setdefault(partial_key(c, rp) or "C10/flush-after-failed/%s/E%d" % (c["op"], rp["err"]), []).append(
+            viol.setdefault(partial_key(c, rp) or "C10/flush-after-failed/%s/E%d%s" % (c["op"], rp["err"], c.get("vkey", "")), []).append(
                 (what, c, "all %d calls failed (error %d), yet a following gd_metaflush rewrote files of the dirfile: a failed call left a fragment marked modified" % (REPS, rp["err"])))
         elif rp["nf"] == REPS and rp["probe"]:
             viol.setdefault("C10/future/%s/E%d" % (c["op"], rp["err"]), []).append(
